@@ -113,7 +113,13 @@ func Component(r *evid.Run) {
 		indices[i] = i
 	}
 	// Family stale-rewind: its own index range (StaleBase+j), fixed cases first.
-	for j, ns := 0, r.Pick(QuickStale, ThoroughStale); j < ns; j++ {
+	ns := r.Pick(QuickStale, ThoroughStale)
+	if v := os.Getenv("C09_STALE_N"); v != "" {
+		// Development aid only (never set by the registered commands): run
+		// more cases of the family without the rest of the thorough tier.
+		fmt.Sscanf(v, "%d", &ns)
+	}
+	for j := 0; j < ns; j++ {
 		indices = append(indices, StaleBase+j)
 	}
 	if v := os.Getenv("C09_ONLY"); v != "" {
